@@ -21,7 +21,9 @@ RULE = ('enumeration: every floatParameter/intParameter in the live ParameterDic
         'through GeophiresXClient/HipRaXClient (must raise naming the parameter, no result file); bound/inside probes '
         'through Model()+read_parameters() (value stored must equal the supplied quantity). Candidates equal to the '
         "parameter's default/current value are the 'not provided' sentinel and are skipped (counted). "
-        'distinct non-trivial = distinct (family class, parameter, probe kind[, value]).')
+        'Every probe of a parameter that has a documented alternative spelling (deprecated name still accepted) is repeated '
+        'under that spelling; random outside probes carry 0-2 in-range companion inputs (accepted on their own). '
+        'distinct non-trivial = distinct (family class, parameter, probe kind[, value, companions]).')
 ASSUMPTIONS = [
     'acceptance is decided by Model()+read_parameters(); a later physical failure of an extreme valid value is out of scope',
     'documented scalings: Reservoir Depth km->m (x1000), Reservoir Impedance GPa.s/m3 -> x1000 are compared as quantities',
@@ -171,10 +173,25 @@ def _probe_values(r):
     return out
 
 
-def _check_probe(rec, family, base, rows_by_name, r, kind, val, expect):
+# other spellings the reader documents for a parameter (deprecated names that are still accepted): a value written under
+# one of them is the same input and falls under the same declared range
+ALIASES = {'Nonvertical Length per Multilateral Section': ['Total Nonvertical Length']}
+
+
+def _check_probe(rec, family, base, rows_by_name, r, kind, val, expect, written_as=None, context=()):
     name = r['name']
-    case = {'family': family, 'params': gen.set_param(base, name, gen.fmt(val)), 'probe': [name, kind, gen.fmt(val), expect],
-            'cls': r['cls']}
+    if written_as:
+        params = gen.drop_param(base, name) + [[written_as, gen.fmt(val)]]
+    else:
+        params = gen.set_param(base, name, gen.fmt(val))
+    for cn, cv in context:
+        params = gen.set_param(params, cn, cv)
+    case = {'family': family, 'params': params, 'probe': [name, kind, gen.fmt(val), expect], 'cls': r['cls']}
+    if written_as:
+        case['written_as'] = written_as
+        kind = kind + '@alias'
+    if context:
+        case['context'] = [list(c) for c in context]
     # the 'not provided' sentinel: a value equal to what the parameter currently holds is a no-op; for integer parameters the
     # declared default is one too (the reader returns on it). A float equal to a declared default that differs from the
     # current value is an ordinary input and is range-checked.
@@ -183,11 +200,11 @@ def _check_probe(rec, family, base, rows_by_name, r, kind, val, expect):
         # (when the base text sets the parameter, r['value'] is not its initial value: the initial value is not known, skip)
         rec.count('skipped_sentinel_equals_default_or_current')
         return
-    key = [r['cls'], name, kind] + ([gen.fmt(val)] if kind.startswith('rand') else [])
+    key = [r['cls'], name, kind] + ([gen.fmt(val)] if kind.startswith('rand') else []) + [list(c) for c in context]
     text = sim.render(case['params'])
     if expect == 'reject':
         raised, names, exists, msg = _client_rejects(text, name)
-        rec.case(case, nontrivial=True, labels=[f'reject:{kind}', f'family:{family}'], key=key,
+        rec.case(case, nontrivial=True, labels=[f'reject:{kind}', f'family:{family}'] + (['with_companion_inputs'] if context else []), key=key,
                  sample={'family': family, 'cls': r['cls'], 'probe': case['probe']})
         if not raised:
             # was it silently altered, or used as given?
@@ -259,6 +276,8 @@ def run_shard(spec, rec):
         for r in rows:
             for kind, val, expect in _probe_values(r):
                 _check_probe(rec, spec['family'], base, byname, r, kind, val, expect)
+                for alias in ALIASES.get(r['name'], []):
+                    _check_probe(rec, spec['family'], base, byname, r, kind, val, expect, written_as=alias)
         rec.count('families_enumerated')
         rec.count('parameters_enumerated', len(rows))
     elif spec['kind'] == 'enum-hip':
@@ -313,17 +332,53 @@ def run_shard(spec, rec):
             v = draw(st.integers(al[0] - 1000, al[-1] + 1000).filter(lambda x: x not in als))
             return f, r, 'rand_outside', v, 'reject'
 
+        ctx_ok = {}
+
+        @st.composite
+        def probes_ctx(draw):
+            """an outside probe together with 1-2 other, in-range inputs of the same family (companions: preferably inputs of the
+            same module whose names share a word with the probed one, e.g. a total next to its components): whatever else the
+            file says, an out-of-range value is refused."""
+            f, r, kind, v, expect = draw(probes())
+            if expect != 'reject':
+                return f, r, kind, v, expect, ()
+            rows, byname = rows_of(f)
+            words = {w for w in r['name'].replace('&', ' ').split() if len(w) > 3}
+            cand = [c for c in rows if c['kind'] == 'floatParameter' and c['name'] != r['name'] and
+                    abs(float(c['min'])) < 1e30 and abs(float(c['max'])) < 1e30 and float(c['min']) < float(c['max'])]
+            near = [c for c in cand if c['cls'] == r['cls'] and (words & set(c['name'].replace('&', ' ').split()))]
+            ctx = []
+            for _ in range(draw(st.integers(0, 2))):
+                pool = near if near and draw(st.booleans()) else cand
+                if not pool:
+                    break
+                c = draw(st.sampled_from(pool))
+                lo, hi = float(c['min']), float(c['max'])
+                ctx.append((c['name'], gen.fmt(draw(gen.nice_floats(lo + (hi - lo) * 0.01, hi - (hi - lo) * 0.5)))))
+            return f, r, kind, v, expect, tuple(ctx)
+
         def fn(pr):
             if rec.out_of_time():
                 return
-            f, r, kind, v, expect = pr
+            f, r, kind, v, expect, ctx = pr
             if expect == 'skip':
                 rec.count('hyp_skipped_no_bound')
                 return
             rows, byname = rows_of(f)
-            _check_probe(rec, f, fams[f], byname, r, kind, v, expect)
+            if ctx:
+                # the companions alone must be an accepted input, otherwise a failure says nothing about the probed value
+                ck = (f, ctx)
+                if ck not in ctx_ok:
+                    p = fams[f]
+                    for cn, cv in ctx:
+                        p = gen.set_param(p, cn, cv)
+                    ctx_ok[ck] = sim.read_only(sim.render(p))[1] is None
+                if not ctx_ok[ck]:
+                    rec.count('companion_inputs_rejected_on_their_own')
+                    ctx = ()
+            _check_probe(rec, f, fams[f], byname, r, kind, v, expect, context=ctx)
 
-        drive(probes(), fn, spec['n'], spec['seed'])
+        drive(probes_ctx(), fn, spec['n'], spec['seed'])
 
 
 # ------------------------------------------------------------------ HIP-RA-X
@@ -466,12 +521,16 @@ def evaluate(case, rec):
             _base_rejected(rec, case['family'], case['params'], e)
         return
     # rebuild metadata from the case's own params with the probed parameter removed
-    base = [p for p in case['params'] if p[0] != name] + [p for p in families().get(case['family'], []) if p[0] == name]
+    ctx = tuple(tuple(c) for c in case.get('context', []))
+    drop = {name, case.get('written_as')} | {c[0] for c in ctx}
+    fam_base = families().get(case['family'], [])
+    base = [p for p in case['params'] if p[0] not in drop] + [p for p in fam_base if p[0] in drop - {case.get('written_as')}]
+    kind = kind.replace('@alias', '')
     rows = _family_rows(base)
     byname = _name_ranges(rows)
     rs = [x for x in rows if x['name'] == name and x['cls'] == case.get('cls', x['cls'])] or \
          [x for x in rows if x['name'] == name]
-    _check_probe(rec, case['family'], base, byname, rs[0], kind, val, expect)
+    _check_probe(rec, case['family'], base, byname, rs[0], kind, val, expect, written_as=case.get('written_as'), context=ctx)
 
 
 NO_SHRINK = True
